@@ -10,12 +10,18 @@ pub const F_INDIRECT: u64 = 1 << 28;
 pub const F_EVENT_IDX: u64 = 1 << 29;
 pub const F_ACCESS_PLATFORM: u64 = 1 << 33;
 
+thread_local! {
+    /// C08 only: a legacy-interface device that nevertheless offers bits in the upper feature word
+    /// (the legacy register layouts have the selector registers, so such a device can exist).
+    pub static LEGACY_RAW_OFFER: std::cell::Cell<bool> = const { std::cell::Cell::new(false) };
+}
+
 /// Fresh world prepared for a driver on transport `kind`.
 pub fn setup_world(kind: TK, offered: u64, config: Vec<u8>, max_queue: u32) {
     world::reset();
     with(|w| {
         // a legacy device does not offer VERSION_1
-        w.dev.offered = if kind.legacy() { offered & !F_VERSION_1 & 0xffff_ffff } else { offered };
+        w.dev.offered = if kind.legacy() && !LEGACY_RAW_OFFER.with(|c| c.get()) { offered & !F_VERSION_1 & 0xffff_ffff } else { offered };
         w.dev.config = config;
         w.dev.default_max = max_queue;
         w.dev.gen = 3;
